@@ -245,13 +245,17 @@ func checkC15(t TB, c HistoryCase) c15Outcome {
 	}
 	// the same history in one fresh process
 	seq, stderr, code, err := runOneshot(false, c.Calls, "seq")
-	if err != nil || code != 0 || len(seq.Fingerprints) != len(c.Calls) {
-		failf(t, P, K, c, "fresh process running the history failed: exit %d, %v, %s", code, err, stderr)
+	if err != nil || code == 2 {
+		// the helper could not be started / could not read its input: infrastructure, not a verdict
+		t.Fatalf("INFRASTRUCTURE: fresh helper process: exit %d, %v, %s", code, err, tail(stderr, 300))
+	}
+	if code != 0 || len(seq.Fingerprints) != len(c.Calls) {
+		failf(t, P, K, c, "the history crashed a fresh process although it ran through in the test process: exit %d, %s", code, tail(stderr, 1500))
 	}
 	for i, s := range c.Calls {
 		alone, ferr := freshFingerprint(s)
 		if ferr != nil {
-			failf(t, P, K, c, "call %d alone in a fresh process: %v", i, ferr)
+			t.Fatalf("INFRASTRUCTURE: call %d alone in a fresh process: %v", i, ferr)
 		}
 		if inproc[i] != alone {
 			failf(t, P, K, c, "call %d (%s): result in the long-lived test process differs from the result of the same call alone in a fresh process", i, s.Label())
